@@ -312,7 +312,10 @@ type Frame struct {
 func GC() {}
 
 func Goexit() {
-	js.Global.Get("$curGoroutine").Set("exit", true)
+	g := js.Global.Get("$curGoroutine")
+	g.Set("exit", true)
+	// Every frame with deferred calls that is active now has to be unwound.
+	g.Set("exitFrames", g.Get("deferStack").Length())
 	js.Global.Call("$throw", nil)
 }
 
